@@ -63,7 +63,9 @@ static uint64_t vx_gv[22]; static uint8_t vx_gd[22]; static unsigned vx_g_i, vx_
 #ifdef VX_CBMC
 /* The link fact of iteration k is proved in harness *_link_<k> (compiled with -DVX_K=k: asserted at iteration k, assumed at the others)
  * and assumed everywhere else: one division-uniqueness query per digit position instead of 20 in one formula (15 s each on SAT). */
-#ifdef VX_K
+#ifdef VX_K_ALL
+#define VX_G_LINK_CHECK(cond) do { __CPROVER_assert(cond, "[C04][C01] ghost: |value| == 10 * |value / 10| + digit (truncating division, also for negative values)"); __CPROVER_assume(cond); } while (0)
+#elif defined(VX_K)
 #define VX_G_LINK_CHECK(cond) do { if (vx_g_i == VX_K) __CPROVER_assert(cond, "[C04][C01] ghost: |value| == 10 * |value / 10| + digit (truncating division, also for negative values)"); __CPROVER_assume(cond); } while (0)
 #else
 #define VX_G_LINK_CHECK(cond) __CPROVER_assume(cond)
